@@ -23,6 +23,7 @@ func init() { Register("e2e", e2eHarness) }
 type mwSpec struct {
 	name    string
 	rewrite bool
+	slow    bool // does "work" (a simulated millisecond) after the inner handler returned, before looking at the results
 }
 
 func (env *e2eEnv) middleware(spec mwSpec) frugal.ServiceMiddleware {
@@ -38,6 +39,20 @@ func (env *e2eEnv) middleware(spec mwSpec) frugal.ServiceMiddleware {
 				args[1] = args[1].(string) + "|" + spec.name
 			}
 			res := next(svc, method, args)
+			if spec.slow {
+				site := simrt.HarnessSite("middleware.work")
+				simrt.Block(site)
+				time.Sleep(time.Millisecond)
+				simrt.Yield(site)
+			}
+			if p != nil && isPing && len(res) == 2 {
+				// what this middleware sees coming back from the inside
+				seen := "<error>"
+				if res.Error() == nil {
+					seen, _ = res[0].(string)
+				}
+				p.mwSaw = append(p.mwSaw, spec.name+"="+seen)
+			}
 			if spec.rewrite && isPing && len(res) == 2 && res.Error() == nil {
 				res[0] = res[0].(string) + "|" + spec.name
 			}
@@ -94,7 +109,7 @@ func e2eHarness(rc *RunCtx) {
 		var specs []mwSpec
 		var mws []frugal.ServiceMiddleware
 		for i := 0; i < n; i++ {
-			sp := mwSpec{name: fmt.Sprintf("%s%d", where, i), rewrite: tp.Intn("cfg", 2) == 1}
+			sp := mwSpec{name: fmt.Sprintf("%s%d", where, i), rewrite: tp.Intn("cfg", 2) == 1, slow: tp.Intn("cfg", 3) == 0}
 			specs = append(specs, sp)
 			mws = append(mws, env.middleware(sp))
 		}
@@ -102,7 +117,11 @@ func e2eHarness(rc *RunCtx) {
 	}
 	cliSpec, cliMW := mkList("cli", 3)
 	provSpec, provMW := mkList("prov", 2)
+	prov2Spec, prov2MW := mkList("prv2", 2)
 	srvSpec, srvMW := mkList("srv", 3)
+	// constructor lists with spare capacity: code that appends to them shares the backing array
+	cliMW = append(make([]frugal.ServiceMiddleware, 0, len(cliMW)+6), cliMW...)
+	srvMW = append(make([]frugal.ServiceMiddleware, 0, len(srvMW)+6), srvMW...)
 	var addSpec []mwSpec
 	if rc.Prop == "C16" && tp.Intn("cfg", 3) == 0 {
 		addSpec = append(addSpec, mwSpec{name: "added0", rewrite: tp.Intn("cfg", 2) == 1})
@@ -137,12 +156,20 @@ func e2eHarness(rc *RunCtx) {
 		for _, sp := range addSpec {
 			env.proc.AddMiddleware(env.middleware(sp))
 		}
+		// a second client (other provider, same constructor list) and a second,
+		// unused processor (same constructor list, its own AddMiddleware):
+		// neither may influence the first
+		env.client2 = simsvc.NewFSimSvcClient(frugal.NewFServiceProvider(env.tr, env.pf, prov2MW...), cliMW...)
+		proc2 := simsvc.NewFSimSvcProcessor(&simHandler{env: env}, srvMW...)
+		proc2.AddMiddleware(env.middleware(mwSpec{name: "srv-other-processor"}))
+		env.prov2Spec = prov2Spec
 		g := &e2eGen{rc: rc, env: env}
 		for i := 0; i < nCallers; i++ {
 			i := i
 			var mine []*callPlan
 			for j := 0; j < perCaller; j++ {
 				p := g.newPlan(len(plans))
+				p.via2 = tp.Intn("call", 3) == 0
 				plans = append(plans, p)
 				env.plans[p.tag] = p
 				mine = append(mine, p)
@@ -249,7 +276,7 @@ func (g *e2eGen) newPlan(id int) *callPlan {
 	methods := []string{"basePing", "baseNote", "echoItem", "doVoid", "add", "blob", "bigString", "many", "choose", "color", "stamp", "headersSeen", "fire"}
 	switch g.rc.Prop {
 	case "C16":
-		methods = []string{"basePing", "basePing", "echoItem", "doVoid", "fire", "baseNote"}
+		methods = []string{"basePing", "basePing", "basePing", "basePing", "echoItem", "doVoid", "fire", "baseNote"}
 	case "C09":
 		methods = []string{"basePing", "add", "echoItem", "fire", "headersSeen"}
 	case "C12":
@@ -340,6 +367,21 @@ func (g *e2eGen) newPlan(id int) *callPlan {
 		p.ret = map[string]string{"a": genString(tp, "val", 4), genString(tp, "val", 3): ""}
 	}
 	failure()
+	if p.outcome == "ok" && g.rc.Prop != "C12" && tp.Intn("call", 5) == 0 {
+		// handlers may return nil for container, binary and struct results
+		switch p.method {
+		case "many":
+			p.ret = []*simsvc.Item(nil)
+		case "headersSeen":
+			p.ret = map[string]string(nil)
+		case "blob":
+			p.ret = []byte(nil)
+		case "echoItem":
+			p.ret = (*simsvc.Item)(nil)
+		case "choose":
+			p.ret = (*simsvc.Choice)(nil)
+		}
+	}
 	if g.rc.Prop == "C12" {
 		p.outcome, p.dur = "ok", 0
 		if p.method == "blob" || p.method == "bigString" {
@@ -503,6 +545,12 @@ func nest(order []mwSpec) []string {
 
 func e2eCheck(rc *RunCtx, env *e2eEnv, plans []*callPlan, cli, prov, srv, added []mwSpec) {
 	key := env.kind + "/" + env.proto
+	provOf := func(p *callPlan) []mwSpec {
+		if p.via2 {
+			return env.prov2Spec
+		}
+		return prov
+	}
 	opids := map[string]string{}
 	for _, p := range plans {
 		where := fmt.Sprintf("call %s %s(%s) outcome=%s", p.tag, p.method, key, p.outcome)
@@ -547,7 +595,7 @@ func e2eCheck(rc *RunCtx, env *e2eEnv, plans []*callPlan, cli, prov, srv, added 
 		if p.method == "basePing" {
 			// rewriting middleware on the way in, outermost first
 			sArg := p.args[0].(string)
-			for _, m := range expectedTraceOrder(cli, prov, srv, added) {
+			for _, m := range expectedTraceOrder(cli, provOf(p), srv, added) {
 				if m.rewrite {
 					sArg += "|" + m.name
 				}
@@ -566,13 +614,18 @@ func e2eCheck(rc *RunCtx, env *e2eEnv, plans []*callPlan, cli, prov, srv, added 
 			want := p.ret
 			if p.method == "basePing" && p.ret == nil {
 				sRet := "pong:" + wantArgs[0].(string)
-				ord := expectedTraceOrder(cli, prov, srv, added)
+				ord := expectedTraceOrder(cli, provOf(p), srv, added)
+				var wantSaw []string
 				for i := len(ord) - 1; i >= 0; i-- {
+					wantSaw = append(wantSaw, ord[i].name+"="+sRet)
 					if ord[i].rewrite {
 						sRet += "|" + ord[i].name
 					}
 				}
 				want = sRet
+				if !reflect.DeepEqual(wantSaw, p.mwSaw) && len(wantSaw)+len(p.mwSaw) > 0 {
+					rc.Violate("C16", "middleware-saw-wrong-results", key, fmt.Sprintf("%s: each middleware should have seen %v coming back, recorded %v", where, wantSaw, p.mwSaw))
+				}
 			}
 			if p.gotErr != nil {
 				rc.Violate("C03", "unexpected-error", key+" "+p.method, fmt.Sprintf("%s: %v", where, p.gotErr))
@@ -643,8 +696,8 @@ func e2eCheck(rc *RunCtx, env *e2eEnv, plans []*callPlan, cli, prov, srv, added 
 			}
 		}
 		// ---- C16: middleware trace
-		ord := expectedTraceOrder(cli, prov, srv, added)
-		nCli := len(cli) + len(prov)
+		ord := expectedTraceOrder(cli, provOf(p), srv, added)
+		nCli := len(cli) + len(provOf(p))
 		if want := nest(ord[:nCli]); !(len(want) == 0 && len(p.mw) == 0) && !reflect.DeepEqual(want, p.mw) {
 			rc.Violate("C16", "client-middleware-trace", key, fmt.Sprintf("%s: expected %v, recorded %v", where, want, p.mw))
 		}
